@@ -98,11 +98,22 @@ def bind_sweep(tier="quick", seed=0):
         spec.loader.exec_module(mod)
         inst = mod.K()
         for i, s in enumerate(shapes):
-            for kind in ("function", "method"):
+            for kind in ("function", "method", "local"):
                 if kind == "method" and tier == "quick" and i % 4:
                     continue
-                fn = getattr(mod, f"f{i}") if kind == "function" else getattr(inst, f"m{i}")
-                fdef = FunctionDefinition.from_callable(fn)
+                if kind == "local" and tier == "quick" and i % 2:
+                    continue
+                fn = getattr(inst, f"m{i}") if kind == "method" else getattr(mod, f"f{i}")
+                if kind == "local":
+                    # a function DEFINED inside compiled code: its definition is built from the syntax tree and the
+                    # default expressions are converted when the definition is executed (from_ast_fn without captured defaults)
+                    import ast as _ast
+                    from cohdl._core._collect_ast_and_scope import SourceLocation
+
+                    fdef = FunctionDefinition.from_ast_fn(_ast.parse(render("f", s)).body[0], "f", global_dict={"__builtins__": __builtins__}, nonlocal_dict={}, default_converter=lambda node: _ast.literal_eval(node),
+                                                          location=SourceLocation("<generated>", 1, "f"))
+                else:
+                    fdef = FunctionDefinition.from_callable(fn)
                 for npos_args, kws in call_shapes(s):
                     args = [f"ARG{j}" for j in range(npos_args)]
                     kwargs = {k: f"KW_{k}" for k in kws}
